@@ -94,7 +94,7 @@ def run(tier):
     from progcheck import run_prog_check
     res = run_prog_check("C02", PROPS, tier, ["c08"], n_quick=2000, n_thorough=40000,
                          focus=["atomic", "mutex", "rwlock", "sem", "acq", "chan", "condvar", "barrier", "park"], focus_n=(3000, 60000),
-                         scenarios=(600, 12000))
+                         scenarios=(600, 12000), exhaustive=["condvar", "park", "barrier", "chan", "sem", "acq", "mutex", "rwlock", "atomic"], exh_n=(30, 300))
     if isinstance(res, int):
         return res
     ctx, _cases, _mo, _io = res
